@@ -4,9 +4,68 @@
 //! boundary addresses. Observable: per sample the root-first list of (library path, relative address) or raw
 //! address.
 use verif_harness::common::*;
+use verif_harness::gen::elf::*;
 use verif_harness::gen::perfdata::*;
 
 pub struct C02;
+
+/// ELF files placed on disk for segment-based attribution: (file name, image base, LOAD segments
+/// `(vaddr, file offset, file size, executable)`): easy case A (svma = file offset), easy case B (non-zero
+/// base) and the hard case of svma_file_range.rs (an SVMA gap between the segments that is elided in the file).
+const ELFS: [(&str, u64, &[(u64, u64, u64, bool)]); 3] = [
+    ("easy_a.so", 0, &[(0, 0, 0x6000, true)]),
+    ("easy_b.so", 0x40000, &[(0x40000, 0, 0x6000, true)]),
+    ("gap.so", 0, &[(0, 0, 0x2000, false), (0x3000, 0x2000, 0x3000, true)]),
+];
+
+fn elf_dir() -> std::path::PathBuf {
+    let d = work_tmp("C02").join("elf");
+    std::fs::create_dir_all(&d).ok();
+    d
+}
+
+fn elf_decls() -> Vec<ElfDecl> {
+    ELFS.iter()
+        .map(|(name, base, segs)| ElfDecl {
+            path: elf_dir().join(name).to_string_lossy().to_string(),
+            base_svma: *base,
+            segs: segs.iter().map(|(v, o, s, _)| (*v, *o, *s)).collect(),
+            exec_seg: segs.iter().position(|s| s.3).unwrap_or(0),
+        })
+        .collect()
+}
+
+fn write_elfs() {
+    for (name, _base, segs) in ELFS.iter() {
+        let mut sections = Vec::new();
+        let mut segments = Vec::new();
+        for (i, (vaddr, off, size, exec)) in segs.iter().enumerate() {
+            // one section per segment, starting 0x1000 into the first segment (room for the headers)
+            let skip = if *off == 0 { 0x1000 } else { 0 };
+            let data: Vec<u8> = (0..(*size - skip)).map(|k| (k % 251) as u8).collect();
+            sections.push(
+                ElfSection::progbits(if *exec { ".text" } else { if i == 0 { ".rodata" } else { ".data" } }, vaddr + skip, data, *exec)
+                    .at_offset(off + skip),
+            );
+            segments.push(ElfSegment { p_type: 1, flags: if *exec { 5 } else { 4 }, offset: *off, vaddr: *vaddr, filesz: *size, memsz: *size, align: 0x1000 });
+        }
+        let text_index = segs.iter().position(|s| s.3).unwrap_or(0);
+        let text_addr = segs[text_index].0 + if segs[text_index].1 == 0 { 0x1000 } else { 0 };
+        let spec = ElfSpec {
+            is64: true,
+            machine: 62,
+            e_type: 3,
+            entry: text_addr,
+            e_flags: 0,
+            sections,
+            symbols: vec![ElfSymbol::func("f0", text_addr, 0x100, text_index), ElfSymbol::func("f1", text_addr + 0x100, 0x200, text_index)],
+            build_id: None,
+            segments: Segments::Explicit(segments),
+        };
+        let f = write_elf(&spec);
+        std::fs::write(elf_dir().join(name), f.bytes).expect("write elf");
+    }
+}
 
 impl Prop for C02 {
     fn id(&self) -> &'static str {
@@ -25,14 +84,24 @@ impl Prop for C02 {
             violate_pct: 15,
             allow_reuse: false,
             allow_fold: true,
+            // a third of the cases also map ELF files that exist on disk (segment-based attribution)
+            files: if rng.chance(1, 3) { elf_decls() } else { Vec::new() },
         };
         gen_history(rng, &shape).to_ops()
+    }
+    fn setup(&self, _tier: Tier) {
+        write_elfs();
     }
     fn execute(&self, ops: &[String], stats: &mut Stats) -> Vec<String> {
         let Some(h) = History::from_ops(ops) else {
             return vec!["bad-op".to_string()];
         };
         count_history(&h, stats);
+        if !h.files.is_empty() {
+            stats.bump("cases_with_files_on_disk");
+            let n = h.recs.iter().filter(|r| matches!(r, Rec::Mmap2 { path, .. } if h.files.iter().any(|f| &f.path == path))).count();
+            stats.add("mmap2_of_file_on_disk", n as u64);
+        }
         let dir = work_tmp("C02");
         let tag = format!("c{:016x}", fnv1a(ops));
         let out = import_and_render(&h, Proj::C02, &dir, &tag, stats);
